@@ -70,3 +70,31 @@ Definition gtf_line_ok (g : gtfcfg) (f : row) : bool :=
       && match r_start f, r_end f with Some s, Some e => s <=? e | _, _ => false end
       && text_clean (r_seqid f) && text_clean (r_strand f)
   end.
+
+(* ---- the derived features and the keys they are stored under (C03 end to end) ---- *)
+Definition mk_derived (ft : str) (a : attrs) (x : Z * Z * str * str) : row :=
+  let '(s, e, strand, seqid) := x in mkRow [] seqid DERIVED ft (Some s) (Some e) DOTs strand DOTs a [] None.
+Definition t_row (g : gtfcfg) (t gn : str) (x : Z * Z * str * str) : row :=
+  mk_derived TRANSCRIPT [(g_tkey g, [t]); (g_gkey g, [gn])] x.
+Definition g_row (g : gtfcfg) (gn : str) (x : Z * Z * str * str) : row := mk_derived GENE [(g_gkey g, [gn])] x.
+
+(* the key a derived row is stored under *)
+Definition did (g : gtfcfg) (d : row) : str :=
+  match first_val (if str_eqb (r_ftype d) GENE then g_gkey g else g_tkey g) d with Some v => v | None => [] end.
+
+Definition appended (g : gtfcfg) (ds : list row) : list row := map (fun d => set_bin (set_id (did g d) d)) ds.
+
+(* ---- ordinary lines and the keys the populate phase gives them: <featuretype>_<n>, counted per featuretype ---- *)
+Definition ordinary (f : row) : Prop := str_eqb (r_ftype f) GENE = false /\ str_eqb (r_ftype f) TRANSCRIPT = false.
+
+(* the keys the lines get: <featuretype>_<n>, counted per featuretype *)
+Fixpoint assign (fs : list row) (a : counters) : list (row * str) :=
+  match fs with
+  | [] => []
+  | f :: r => (f, fst (auto_incr (r_ftype f) a)) :: assign r (snd (auto_incr (r_ftype f) a))
+  end.
+Fixpoint last_auto (fs : list row) (a : counters) : counters :=
+  match fs with [] => a | f :: r => last_auto r (snd (auto_incr (r_ftype f) a)) end.
+
+Definition place (p : row * str) : row := set_bin (set_id (snd p) (fst p)).
+
